@@ -22,6 +22,7 @@ import (
 //           the second variant, to a third master that owns no slot yet
 // alphabet  set g0 migrating to m1 | migrate ka | migrate kb | finalise g0 | failover m0->r0 (old master stays
 //           up as replica) | failover with the old master down | refresh round |
+//           failover announced by a host-removal notice after the proxy already refreshed once |
 //           GET ka | SET ka v | INCR kb | DEL ka | MGET ka kb kc | SET kc v | outage of m0 with a command meanwhile
 // bound     depth (quick 4, thorough 5); default schedule, fair random seed choice
 // oracle    no reply is a MOVED/ASK error; every reply equals the single-server reply (INCR makes a lost or
@@ -30,7 +31,7 @@ import (
 // ---------------------------------------------------------------------------
 
 var c04ops = []string{"migrating", "migrate-ka", "migrate-kb", "finalise", "failover", "failover-master-down", "refresh-round",
-	"GET ka", "SET ka", "INCR kb", "DEL ka", "MGET", "SET kc", "m0-outage"}
+	"GET ka", "SET ka", "INCR kb", "DEL ka", "MGET", "SET kc", "m0-outage", "failover-with-notice"}
 
 type c04case struct {
 	Ops []int `json:"ops"`
@@ -142,6 +143,25 @@ func c04run(cs c04case) (sig, detail string) {
 				if grace >= 0 {
 					grace++
 				}
+				continue
+			case "failover-with-notice":
+				// the master dies; the proxy's refresh round that follows still sees the old topology; then the
+				// replica is promoted and the proxy is told that the dead master left the host set (service
+				// discovery / health check). After two refresh pauses its slots are served by the new master.
+				if w.r0.MasterOf == nil || cl.Migrating[0] != nil || cl.Owner[0] != w.m0 || w.m0.Down {
+					continue
+				}
+				w.m0.Stop()
+				sched.WaitQuiescent()
+				w.s.RefreshRound()
+				w.s.RefreshRound()
+				cl.Failover(w.r0)
+				w.s.p.u.OnHostRemove(host.New(w.m0.Addr))
+				sched.WaitQuiescent()
+				w.s.RefreshRound()
+				w.s.RefreshRound()
+				w.s.RefreshRound()
+				phase = "after failover with a removal notice"
 				continue
 			case "m0-outage":
 				// the owner of g0 is unreachable for a while (a command arrives meanwhile and may fail), then it is
